@@ -151,7 +151,7 @@ func init() {
 		profile: func(rng *rand.Rand, tier string) world.Profile {
 			p := baseProfile(rng)
 			p.StartEra = []int{eraV20, eraV20Dev, eraV202, eraPIP10}[rng.Intn(4)]
-			after := 4 + rng.Intn(25)
+			after := 20 + rng.Intn(20)
 			alignSnapshots(&p, rng, after)
 			p.Blocks = after + 144 + 3 + rng.Intn(10)
 			if tier == "thorough" && rng.Intn(3) == 0 {
@@ -161,9 +161,15 @@ func init() {
 			p.PConv = 0.5
 			p.POutage = 0.03
 			p.SPR = rng.Intn(2) == 0
+			p.PegPriceX = []uint64{1, 3000, 30000, 100000}[rng.Intn(4)]
 			return p
 		},
-		extra:      func(rng *rand.Rand, g *world.Gen) func(uint32, *world.BlockSpec) { return quietMiddle(rng, g) },
+		extra: func(rng *rand.Rand, g *world.Gen) func(uint32, *world.BlockSpec) {
+			if g.P.PegPriceX > 1 {
+				return chain2(quietMiddle(rng, g), tieScript(rng, g))
+			}
+			return quietMiddle(rng, g)
+		},
 		final:      holderCap,
 		nontrivial: func(w *world.World, l *model.Ledger) []string { return causeKeys(l, model.CHolder) },
 	})
